@@ -469,4 +469,72 @@ theorem wireLadder_inv {P : Step → Prop} (h1 : StepInv P .exact) (h2 : StepInv
     | apply gate_inv h1 _ (by omega)
     | split)
 
+
+/-! ### edns: wire branch vs decoded body -/
+
+theorem setEdns0Cookie_single (c : Bytes) : setEdns0Cookie [c] [] = if c.length ≥ 8 then c.take 8 else [] := by
+  simp [setEdns0Cookie]
+
+/-- at most one cookie option (of ≥ 8 octets): the payload list is what `cookieOf` reads -/
+theorem cookiePayloads_of_le_one : ∀ (os : List SOption), (∀ o ∈ os, o.ok) → countCookies os ≤ 1 →
+    cookiePayloads os = (if cookieOf os = [] then [] else [cookieOf os]) ∧
+    (countCookies os = 0 → cookieOf os = [])
+  | [], _, _ => by simp [cookiePayloads, cookieOf]
+  | o :: t, hok, hc => by
+    have ih := cookiePayloads_of_le_one t (fun x hx => hok x (List.mem_cons_of_mem _ hx))
+    by_cases h10 : o.code = 10
+    · have hcnt : countCookies t = 0 := by simp [countCookies, h10] at hc; omega
+      obtain ⟨ih1, ih2⟩ := ih (by omega)
+      have hlen : 8 ≤ o.data.length := by
+        rcases hok o (List.mem_cons_self ..) with h | h | h | h | h
+        · exact h.2.1
+        all_goals (simp [h10] at h)
+      have hne : o.data ≠ [] := by intro he; rw [he] at hlen; simp at hlen
+      refine ⟨?_, ?_⟩
+      · simp [cookiePayloads, cookieOf, h10, hne, ih1, ih2 hcnt]
+      · intro h0; simp [countCookies, h10] at h0
+    · have hc' : countCookies t ≤ 1 := by simpa [countCookies, h10] using hc
+      obtain ⟨ih1, ih2⟩ := ih hc'
+      refine ⟨by simp [cookiePayloads, cookieOf, h10, ih1], ?_⟩
+      intro h0
+      simp [countCookies, h10] at h0
+      simp [cookieOf, h10, ih2 h0]
+
+theorem dreqOfFacts_factsOf (m : SMsg) (hwf : m.WF) : dreqOfFacts (factsOf m) = dreqOf m := by
+  cases hopt : m.opt with
+  | none => simp [dreqOfFacts, dreqOf, factsOf, hopt]
+  | some o =>
+    obtain ⟨hall, hcnt⟩ := hwf.optsOK o hopt
+    have := (cookiePayloads_of_le_one o.options hall hcnt).1
+    simp [dreqOfFacts, dreqOf, factsOf, hopt, optFactsOf, this]
+
+/-! ### as112 -/
+
+theorem findZone_spec (zones : List (List String)) : ∀ (l : List String) (i j : Nat) (z : List String),
+    findZone zones i l = some (j, z) → i ≤ j ∧ z = l.drop (j - i) ∧ z.length + (j - i) = l.length ∧ z ∈ zones
+  | [], i, j, z, h => by simp [findZone] at h
+  | a :: t, i, j, z, h => by
+    unfold findZone at h
+    by_cases hm : (a :: t) ∈ zones
+    · simp only [hm, if_true, Option.some.injEq, Prod.mk.injEq] at h
+      obtain ⟨rfl, rfl⟩ := h
+      simp [hm]
+    · simp only [hm, if_false] at h
+      obtain ⟨h1, h2, h3, h4⟩ := findZone_spec zones t (i + 1) j z h
+      refine ⟨by omega, ?_, ?_, h4⟩
+      · have : j - i = (j - (i + 1)) + 1 := by omega
+        rw [this, List.drop_succ_cons]; exact h2
+      · simp only [List.length_cons]; omega
+
+theorem findZone_shift (zones : List (List String)) : ∀ (l : List String) (i k : Nat),
+    findZone zones (i + k) l = (findZone zones i l).map (fun p => (p.1 + k, p.2))
+  | [], i, k => by simp [findZone]
+  | a :: t, i, k => by
+    unfold findZone
+    by_cases hm : (a :: t) ∈ zones
+    · simp [hm]
+    · simp only [hm, if_false]
+      have := findZone_shift zones t (i + 1) k
+      rw [show i + k + 1 = i + 1 + k by omega]; exact this
+
 end SdnsVerif.Lemmas.WirePath
